@@ -1322,6 +1322,7 @@ class Num:
                 new = [[d + 1], [-d + 1]]
             else:
                 new = [[]]            # a disequality between two unknowns carries no linear information: keep one state
+                st.notes["neq"] = list(st.notes.get("neq", [])) + [d]  # ... but remember it: equality later is a dead path
         outs = []
         tv = st.notes.get("tabvals")
         for alt in new:
@@ -1330,6 +1331,11 @@ class Num:
                 continue
             for p in alt:
                 s.add(p)
+            nq = s.notes.get("neq")
+            if nq and op != "!=":
+                da_ = d.atoms()
+                if any((q.atoms() & da_) and entails(s, q) and entails(s, -q) for q in nq):
+                    continue  # the two sides of an earlier `!=` are now forced equal: infeasible
             if tv:
                 # a value read from a constant table is one of the table's entries: tighten to the entries still possible
                 dead = False
